@@ -104,7 +104,8 @@ PROPS = {
         "mc": L0_QUICK,
         "drivers": [drv("failures", "debug"), drv("failures", "release")]
                    + [drv(d, "release", shards={"quick": 2, "thorough": 6}, env={"HARNESS_SAMPLE": "8"}) for d in
-                      ("addsub", "mul", "div", "bits", "text", "conv", "modpow", "roots", "pow", "gcd", "forms", "bytes", "history", "sign")]
+                      ("addsub", "mul", "div", "bits", "text", "conv", "roots", "pow", "gcd", "forms", "bytes", "history", "sign")]
+                   + [drv("modpow", "release", shards={"quick": 6, "thorough": 14}, env={"HARNESS_SAMPLE": "2"})]
                    + [drv(d, "debug", tiers=T, shards={"thorough": 6}, env={"HARNESS_SAMPLE": "3"}) for d in
                       ("addsub", "mul", "div", "bits", "text", "conv", "modpow", "roots", "pow", "gcd", "forms", "bytes", "history", "sign")],
         "owns_reasons": ("unexpected_panic", "missing_failure", "unexpected_none", "crash"),
